@@ -25,13 +25,18 @@ Kinds == {"string", "int", "float", "bool", "date", "datetime", "uuid", "enums",
 Val(T, c) == <<"val", T, c>>
 NoDefault == <<"none", "", "">>
 Err == <<"err", "", "">>
-NumOfStr(v) == CASE v = "s1" -> "i1" [] v = "s15" -> "f15" [] OTHER -> "nan"
+\* str(value) of a non-string value, as a value class of its own (the raw value StringProperty.convert_value records), and what float(...) reads back
+StrOf(v) == CASE v = "i1" -> "s1" [] v = "f15" -> "s15" [] OTHER -> "s:" \o v
+NumOfStr(v) == CASE v = "s1" -> "i1" [] v = "s15" -> "f15" [] v \in {"s:i0", "s:im1", "s:i2", "s:i7"} -> SubSeq(v, 3, Len(v))
+                 [] v = "s:f10" -> "f10" [] v \in {"s:ibig", "s:imax"} -> SubSeq(v, 3, Len(v)) \o "-rounded"        \* int(float("9007199254740993"))
+                 [] OTHER -> "nan"
+IntNums == {"i0", "i1", "im1", "i2", "i7", "ibig-rounded", "imax-rounded"}
 
 RECURSIVE Convert(_, _)
 Convert(k, v) ==
   IF v = "null" THEN NoDefault
   ELSE CASE k = "string" -> Val("str", IF JT(v) = "str" THEN v ELSE "str(" \o v \o ")")          \* str(value): anything is accepted; emitted as repr(value)
-    [] k = "int" -> IF JT(v) = "str" THEN (IF NumOfStr(v) = "i1" THEN Val("int", "i1") ELSE Err)
+    [] k = "int" -> IF JT(v) = "str" THEN (IF NumOfStr(v) \in IntNums THEN Val("int", NumOfStr(v)) ELSE IF NumOfStr(v) = "f10" THEN Val("int", "i1") ELSE Err)
                     ELSE IF v = "f10" THEN Val("int", "i1")                                       \* integral float
                     ELSE IF JT(v) = "int" THEN Val("int", v) ELSE Err                           \* bool, 1.5, containers
     [] k = "float" -> IF JT(v) = "str" THEN (IF NumOfStr(v) # "nan" THEN Val("float", NumOfStr(v)) ELSE Err)
@@ -90,4 +95,15 @@ IllTyped(k, v) == v # "null" /\ ~WellTyped(k, v) /\ ~Lenient(k, v)
 D1(k, v) == WellTyped(k, v) => (Convert(k, v) # Err /\ Convert(k, v) # NoDefault /\ Convert(k, v)[3] = v)
 \* D2: a default that is not a value of the type is rejected
 D2(k, v) == IllTyped(k, v) => Convert(k, v) = Err
+\* ------------------------------------------------------------------ an allOf override inside one property class
+\* The child re-declares an inherited property with ANOTHER declaration of the same property class (a const with another value, a union with
+\* other members) and gives a default.  The child's property is built on its own first (Convert(k, v)); merge_properties then keeps the
+\* BASE declaration and re-converts the raw default against it (_merge_common_attributes: current.convert_value(override.default.raw_value)).
+UnionKinds == {"uintstr", "udateint", "umodelstr", "umodelint"}
+SameClass == {<<"consti", "consts">>, <<"consts", "consti">>} \cup {p \in UnionKinds \X UnionKinds : p[1] # p[2]}     \* <<base kind, child kind>>
+\* what is re-converted is the raw value the child's conversion RECORDED: str(value) when the string member took a non-string
+Recorded(k, v) == IF Convert(k, v)[3] = "str(" \o v \o ")" THEN StrOf(v) ELSE v
+ConvertOver(kp, k, v) == IF Convert(k, v) \in {Err, NoDefault} THEN Convert(k, v) ELSE Convert(kp, Recorded(k, v))
+\* D3: allOf means both declarations hold, so a default that is not a value of either one is rejected
+D3(kp, k, v) == (IllTyped(kp, v) \/ IllTyped(k, v)) => ConvertOver(kp, k, v) = Err
 =============================================================================
